@@ -55,6 +55,16 @@ type job struct {
 	// MidRound: the node under test is a replica in the middle of the round on block b: it validated the
 	// leader's proposal (bft keeps the block result) before the certificate arrives from a peer
 	MidRound bool `json:"mid_round,omitempty"`
+	// Edge: the certified block is the FIRST one under the new committee (prefix of one block: the certificate's
+	// root height is the height at which the committee changed, the root height before it has the old committee)
+	Edge bool `json:"edge,omitempty"`
+}
+
+func (j job) prefix() int {
+	if j.Edge {
+		return 1
+	}
+	return 2
 }
 
 type caseRec struct {
@@ -252,7 +262,7 @@ func (w *world) runCases(res *result, part string, cases []tcase, lo, hi int, on
 		cs := append([]string{}, tc.classes...)
 		sort.Strings(cs)
 		res.CertClasses[strings.Join(cs, "+")+"=>"+outc]++
-		rp := map[string]any{"cfg": w.cfg.Name, "part": part, "case": tc.name, "mid_round": w.midRound}
+		rp := map[string]any{"cfg": w.cfg.Name, "part": part, "case": tc.name, "mid_round": w.midRound, "edge": w.edge}
 		for _, p := range o.problems {
 			res.Viols = append(res.Viols, mc.Viol{Sig: classSig("invariant-on-"+outc, tc.classes), What: fmt.Sprintf("config %s part %s case %s: %s\n   certificate: %s", w.cfg.Name, part, tc.name, p, tc.c.describe()), Replay: rp})
 		}
@@ -332,7 +342,7 @@ func runJob(j job) (res result) {
 	cfg := cfgByName(j.Cfg)
 	switch j.Part {
 	case "subsets", "singles", "pairs":
-		w, err := buildWorld(cfg, 2)
+		w, err := buildWorld(cfg, j.prefix())
 		if err != nil {
 			res.HarnessErr = err.Error()
 			return
@@ -340,6 +350,7 @@ func runJob(j job) (res result) {
 		defer w.close()
 		w.quick = j.Quick
 		w.midRound = j.MidRound
+		w.edge = j.Edge
 		if err = w.prepareCandidates(); err != nil {
 			res.HarnessErr = err.Error()
 			return
@@ -384,13 +395,14 @@ func runJob(j job) (res result) {
 
 // runLast: deviations of the LastQuorumCertificate embedded in block h+1.
 func runLast(cfg cfgSpec, j job, res *result) {
-	w, err := buildWorld(cfg, 2)
+	w, err := buildWorld(cfg, j.prefix())
 	if err != nil {
 		res.HarnessErr = err.Error()
 		return
 	}
 	defer w.close()
 	w.quick = j.Quick
+	w.edge = j.Edge
 	if err = w.prepareCandidates(); err != nil {
 		res.HarnessErr = err.Error()
 		return
@@ -691,6 +703,9 @@ func main() {
 		jobs = append(jobs, job{Cfg: c.Name, Part: "singles", Lo: 0, Hi: 50, Quick: quick}, job{Cfg: c.Name, Part: "singles", Lo: 50, Hi: 100, Quick: quick}, job{Cfg: c.Name, Part: "singles", Lo: 100, Hi: -1, Quick: quick})
 		jobs = append(jobs, job{Cfg: c.Name, Part: "subsets", Hi: -1, Quick: quick, MidRound: true})
 		jobs = append(jobs, job{Cfg: c.Name, Part: "singles", Lo: 0, Hi: 70, Quick: quick, MidRound: true}, job{Cfg: c.Name, Part: "singles", Lo: 70, Hi: -1, Quick: quick, MidRound: true})
+		if len(c.Stakes) > 1 {
+			jobs = append(jobs, job{Cfg: c.Name, Part: "subsets", Hi: -1, Quick: quick, Edge: true}, job{Cfg: c.Name, Part: "last", Hi: -1, Quick: quick, Edge: true})
+		}
 		jobs = append(jobs, job{Cfg: c.Name, Part: "last", Lo: 0, Hi: 40, Quick: quick}, job{Cfg: c.Name, Part: "last", Lo: 40, Hi: 80, Quick: quick}, job{Cfg: c.Name, Part: "last", Lo: 80, Hi: 120, Quick: quick}, job{Cfg: c.Name, Part: "last", Lo: 120, Hi: -1, Quick: quick})
 	}
 	fs := []string{"n4-5/1/1/1"}
@@ -854,6 +869,7 @@ func doReplay(r *mc.Run) {
 		Part string `json:"part"`
 		Case string `json:"case"`
 		Mid  bool   `json:"mid_round"`
+		Edge bool   `json:"edge"`
 	}
 	if err := r.LoadReplay(&rp); err != nil {
 		fmt.Println("cannot load replay:", err)
@@ -861,7 +877,7 @@ func doReplay(r *mc.Run) {
 	}
 	n := 0
 	for i := 0; i < 5; i++ {
-		res := runJob(job{Cfg: rp.Cfg, Part: rp.Part, Hi: -1, Only: rp.Case, MidRound: rp.Mid})
+		res := runJob(job{Cfg: rp.Cfg, Part: rp.Part, Hi: -1, Only: rp.Case, MidRound: rp.Mid, Edge: rp.Edge})
 		if res.HarnessErr != "" {
 			fmt.Println("harness error:", res.HarnessErr)
 		}
